@@ -34,8 +34,10 @@
 (declare-fun band32 (Int Int) Int)
 (declare-fun bor32 (Int Int) Int)
 
-;;@ axiom STR-len-nonneg trigger=clen :: T-STR: character and byte lengths are non-negative, clen <= blen
-(assert (forall ((s Str)) (! (and (<= 0 (clen s)) (<= (clen s) (blen s))) :pattern ((clen s)))))
+;;@ axiom STR-len-nonneg trigger=clen :: T-STR: character counts are non-negative
+(assert (forall ((s Str)) (! (<= 0 (clen s)) :pattern ((clen s)))))
+;;@ axiom STR-clen-le-blen trigger=clen,blen :: T-STR: a string has at most as many characters as bytes
+(assert (forall ((s Str)) (! (<= (clen s) (blen s)) :pattern ((clen s) (blen s)))))
 ;;@ axiom STR-blen-nonneg trigger=blen :: T-STR: byte length is non-negative
 (assert (forall ((s Str)) (! (<= 0 (blen s)) :pattern ((blen s)))))
 ;;@ axiom STR-eps trigger=eps,clen :: T-STR: a string has no characters iff it has no bytes iff it is the empty string
